@@ -44,6 +44,10 @@ def run(ctx):
     rep.exhaustive_rules.append('C03.1-DONE-only-on-K-or-D')
 
     r3 = rep.rule('C03.3-counting-and-pass', 'R-TYPESTATE', 'pass_dochan: every T record is counted in numtodo before its delivery starts; flaghiteof only at end of file; a pass always ends in job_close')
+    # the records of a channel file are read with getln(): a record longer than the input buffer arrives whole (its first byte decides T or D)
+    from rules import libtab as _lt
+    for inst_, v_ in sorted(_lt.getln_sites(db, rep, db.program('qmail-send')).items()):
+        r3.check(v_[0], inst_, v_[1], v_[2], v_[3])
     ps = qsend.analyse_pass_dochan(db, rep)
     attach(r3, ps, only={'pass:numtodo-counted-before-del_start', 'pass:T-record-starts-one-delivery-attempt', 'pass:flaghiteof-only-at-end-of-file',
                          'pass:pass-ends-with-job_close', 'pass:record-read-only-when-a-delivery-slot-is-free', 'pass:opens-the-channel-file-of-its-channel', 'pass:a-new-pass-marks-from-offset-0'})
